@@ -53,6 +53,9 @@ type Violation struct {
 	Tape    []TapeEntry
 	Known   string // id of a known finding whose condition holds in the model ("" otherwise)
 	Path    []bool
+	// NoNativeReplay: the violation is "a nondeterministic source is reachable"; a native run cannot fail on it,
+	// the tape reproduces the path that reaches the source.
+	NoNativeReplay bool
 }
 
 type TapeEntry struct {
@@ -800,4 +803,25 @@ func firstFrames(st string) string {
 		}
 	}
 	return strings.Join(out, " < ")
+}
+
+// nondetSource: a wall-clock / randomness / goroutine source was reached on a chain-side path.
+func (it *Interp) nondetSource(what string) {
+	it.jr.Obligations++
+	r, err := it.S.Check(append(append([]*smt.Term{}, it.P.PC...), it.P.Exact...), it.Cfg.AssertTimeout)
+	if err != nil || r == smt.Unknown {
+		it.abort("nondeterministic source reached (%s), path feasibility unknown", what)
+	}
+	if r == smt.Unsat {
+		it.jr.Discharged++
+		panic(&pathEnd{kind: "infeasible"})
+	}
+	it.recordViolation("no-hidden-entropy", "entropy", "nondeterministic source reachable in consensus code: "+what+" at "+it.curPos()+" in "+it.where(), "")
+	for _, v := range it.jr.Violations {
+		if v.Label == "no-hidden-entropy" {
+			v.NoNativeReplay = true
+		}
+	}
+	it.S.Pop()
+	panic(&pathEnd{kind: "stop"})
 }
